@@ -87,10 +87,11 @@ func checkBudget(c *budgetCase, overCountKnown bool) (msg string, ops int) {
 		if r.err != postscript.ErrExecutionLimitExceeded {
 			return fmt.Sprintf("budget %d < %d operations needed: err = %s, want ErrExecutionLimitExceeded\nprogram: %s", n, ops, errText(r.err), clip(c.Text)), ops
 		}
-		if r.ops != n+1 && !overCountKnown {
-			return fmt.Sprintf("budget %d < %d operations needed: NumOps = %d, want %d (never past N+1)\nprogram: %s", n, ops, r.ops, n+1, clip(c.Text)), ops
+		// the refused operation may or may not be counted: N or N+1
+		if r.ops > n+1 && !overCountKnown {
+			return fmt.Sprintf("budget %d < %d operations needed: NumOps = %d, counted past N+1 = %d\nprogram: %s", n, ops, r.ops, n+1, clip(c.Text)), ops
 		}
-		if r.ops < n+1 {
+		if r.ops < n {
 			return fmt.Sprintf("budget %d: stopped at NumOps = %d before the budget was used up\nprogram: %s", n, r.ops, clip(c.Text)), ops
 		}
 	}
@@ -114,7 +115,7 @@ func overCount(rec *ev.Rec) bool {
 func TestP1Budget(t *testing.T) {
 	rec := ev.New("C11", "budget")
 	defer rec.Finish(t)
-	rec.Rule("terminating deterministic programs (control-flow programs of the C03 generator and data programs of the C02 generator, with or without a final error) are run without budget -> (ops, state, error); then with MaxOps = N for every N in 1..ops+2 (all cut points when ops <= 400, 200 evenly spaced plus ops-1..ops+2 otherwise) on a fresh interpreter: N >= ops must reproduce state, error and NumOps exactly; N < ops must return ErrExecutionLimitExceeded (identity) with NumOps == N+1. Non-trivial: ops >= 10 and the program contains a loop or a procedure call; distinct by program text.")
+	rec.Rule("terminating deterministic programs (control-flow programs of the C03 generator and data programs of the C02 generator, with or without a final error) are run without budget -> (ops, state, error); then with MaxOps = N for every N in 1..ops+2 (all cut points when ops <= 400, 200 evenly spaced plus ops-1..ops+2 otherwise) on a fresh interpreter: N >= ops must reproduce state, error and NumOps exactly; N < ops must return ErrExecutionLimitExceeded (identity) with NumOps = N or N+1 (whether the refused operation is counted is not fixed; never past N+1, never short of N). Non-trivial: ops >= 10 and the program contains a loop or a procedure call; distinct by program text.")
 	over := overCount(rec)
 	cfg := psgen.Config{TypeLiteral: true}
 	ev.SetupRapid(6000, 160000)
